@@ -120,6 +120,19 @@ def judge(events, outs):
                     got = sorted(w.get("qualified_name") for w in out["gate"]["dq"])
                     if want != got:
                         V.append(_v("C04", f"C04/{fl}/fit/model-dq-mismatch", ev, {"want": want, "got": got}))
+                if "fresh_class" in out and not arg_error:
+                    if out["fresh_class"] != "returned":
+                        V.append(_v("C03", f"C03/{fl}/fit/outcome-differs-from-fresh-object{refit}", ev,
+                                    {"fresh": out["fresh_class"]}))
+                    else:
+                        if out.get("fresh_doc_same") is False:
+                            V.append(_v("C03", f"C03/{fl}/fit/doc-differs-from-fresh-object:"
+                                               f"{'+'.join(out.get('fresh_doc_paths') or [])}{refit}", ev))
+                        fg = out["fresh_gate"]
+                        got_dq = sorted(w.get("qualified_name") for w in out["gate"]["dq"])
+                        if fam != "caltrack" and (sorted(fg["dq"]) != got_dq or fg["tz"] != out["gate"]["tz"]):
+                            V.append(_v("C04", f"C04/{fl}/fit/gate-state-differs-from-fresh-object{refit}", ev,
+                                        {"fresh": fg, "got": {"dq": got_dq, "tz": out["gate"]["tz"]}}))
                 if not arg_error:
                     k = "fit|" + "|".join([fam, f["profile"], out["rid"], out["data_digest"], str(f["ignore"])])
 
